@@ -8,6 +8,7 @@ import (
 	"io"
 	"sync"
 	"sync/atomic"
+	"unsafe"
 
 	"github.com/godaddy/asherah/go/securememory"
 )
@@ -75,10 +76,13 @@ type Ledger struct {
 	// AccessFaults: index of a WithBytes/WithBytesFunc call (over all secrets, 0-based) -> AccessRefuse | AccessRelease
 	AccessFaults map[int]string
 	accesses     int
-	accessLog    []AccessCall
-	NoAccessLog  bool         // long stress runs: do not retain the access log
-	label        atomic.Value // string
-	NoHash       bool         // do not read CreateRandom secrets back (keeps mprotect traffic unchanged)
+	// TrackExposure switches on the bookkeeping behind IsExposed
+	TrackExposure bool
+	exposed       map[uintptr][2]int
+	accessLog     []AccessCall
+	NoAccessLog   bool         // long stress runs: do not retain the access log
+	label         atomic.Value // string
+	NoHash        bool         // do not read CreateRandom secrets back (keeps mprotect traffic unchanged)
 }
 
 // LedCall is one creation call on the monitored factory.
@@ -275,7 +279,65 @@ func (l *Ledger) AccessLog(from int) []AccessCall {
 	return out
 }
 
-func (s *monSecret) WithBytes(action func([]byte) error) (err error) {
+// expose / unexpose keep the set of secret byte ranges that are currently handed to a reader callback.
+func (l *Ledger) expose(b []byte) {
+	if len(b) == 0 || !l.TrackExposure {
+		return
+	}
+	l.mu.Lock()
+	if l.exposed == nil {
+		l.exposed = map[uintptr][2]int{}
+	}
+	base := uintptr(unsafe.Pointer(unsafe.SliceData(b)))
+	e := l.exposed[base]
+	if len(b) > e[0] {
+		e[0] = len(b)
+	}
+	e[1]++
+	l.exposed[base] = e
+	l.mu.Unlock()
+}
+
+func (l *Ledger) unexpose(b []byte) {
+	if len(b) == 0 || !l.TrackExposure {
+		return
+	}
+	l.mu.Lock()
+	base := uintptr(unsafe.Pointer(unsafe.SliceData(b)))
+	if e, ok := l.exposed[base]; ok {
+		if e[1]--; e[1] <= 0 {
+			delete(l.exposed, base)
+		} else {
+			l.exposed[base] = e
+		}
+	}
+	l.mu.Unlock()
+}
+
+// IsExposed reports whether b lies inside the bytes of a secret that is being read right now (inside a WithBytes /
+// WithBytesFunc callback): key material seen outside such a range sits in an ordinary heap buffer.
+func (l *Ledger) IsExposed(b []byte) bool {
+	if len(b) == 0 {
+		return false
+	}
+	p := uintptr(unsafe.Pointer(unsafe.SliceData(b)))
+	l.mu.Lock()
+	defer l.mu.Unlock()
+	for base, e := range l.exposed {
+		if p >= base && p < base+uintptr(e[0]) {
+			return true
+		}
+	}
+	return false
+}
+
+func (s *monSecret) WithBytes(action0 func([]byte) error) (err error) {
+	led := s.rec.led
+	action := func(b []byte) error {
+		led.expose(b)
+		defer led.unexpose(b)
+		return action0(b)
+	}
 	ac := s.enter()
 	defer func() { s.exit(ac, err) }()
 	switch s.rec.led.nextAccess("with-bytes") {
@@ -290,7 +352,13 @@ func (s *monSecret) WithBytes(action func([]byte) error) (err error) {
 	return s.rec.inner.WithBytes(action)
 }
 
-func (s *monSecret) WithBytesFunc(action func([]byte) ([]byte, error)) (ret []byte, err error) {
+func (s *monSecret) WithBytesFunc(action0 func([]byte) ([]byte, error)) (ret []byte, err error) {
+	led := s.rec.led
+	action := func(b []byte) ([]byte, error) {
+		led.expose(b)
+		defer led.unexpose(b)
+		return action0(b)
+	}
 	ac := s.enter()
 	defer func() { s.exit(ac, err) }()
 	switch s.rec.led.nextAccess("with-bytes-func") {
